@@ -284,6 +284,7 @@ def run(ctx):
     t, cf = tlcmod.gen_mc(ctx.work, "IvpAdjoint", "MC_IA", base, invariants=INVS)
     r = ctx.model_check(t, cf, workers=4, coverage=True, label="exhaustive", timeout=300)
     ctx.check_coverage(r, ["Segment", "Finish"])
+    ctx.check_proof("IvpAdjoint_proofs")       # the same invariants for every number of requested times
     for sw, inv in (("Reseed", "AlwaysReseeded"), ("AddCotangent", "AllCotangents"), ("UseBckOptions", "BackwardOptions"), ("InheritFwd", "OptionInheritance")):
         c = dict(base)
         c[sw] = False
